@@ -80,7 +80,7 @@ GROUP = {
 """),
         # ---- statement slices of iso_camt053::import (the function as a whole - serde model, Either of two iterators, extractor - is outside Verus)
         U("callsite:import.entry_without_details", CA, [r"pub fn import<R>"], fn="entry_txn", no_canary=True,
-          slice=r"if entry\.details\.transactions\.is_empty\(\) \{\s*(?://[^\n]*\n\s*)*(let amount = [^;]*;)[\s\S]*?(let mut txn = single_entry::Txn::new\([^;]*;)\s*(txn\s*\.effective_date\([^;]*;)", slice_count=1, slice_raw=True, slice_groups="all",
+          slice=r"for entry in entries \{\s*((?:(?://[^\n]*\n\s*)|(?:let \w+ = [^;]*;\s*))*)if entry\.details\.transactions\.is_empty\(\) \{\s*(?://[^\n]*\n\s*)*(let amount = [^;]*;)[\s\S]*?(let mut txn = single_entry::Txn::new\([^;]*;)\s*(txn\s*\.effective_date\([^;]*;)", slice_count=1, slice_raw=True, slice_groups="all",
           rewrites=[("R1-path", "single_entry::Txn::new(", "Txn::new(", 1)],
           slice_template="""fn entry_txn(entry: &xmlnode::Entry, fragment: &Fragment) -> (txn: Txn)
     ensures
@@ -96,7 +96,7 @@ GROUP = {
     txn
 }"""),
         U("callsite:import.detail_of_a_batched_entry", CA, [r"pub fn import<R>"], fn="detail_txn", no_canary=True,
-          slice=r"for transaction in &entry\.details\.transactions \{\s*(let amount = [^;]*;)[\s\S]*?(let code = [^;]*;)[\s\S]*?(let mut txn = single_entry::Txn::new\([^;]*;)\s*(txn\s*\.effective_date\([^;]*;)", slice_count=1, slice_raw=True, slice_groups="all",
+          slice=r"for entry in entries \{\s*((?:(?://[^\n]*\n\s*)|(?:let \w+ = [^;]*;\s*))*)[\s\S]*?for transaction in &entry\.details\.transactions \{\s*(let amount = [^;]*;)[\s\S]*?(let code = [^;]*;)[\s\S]*?(let mut txn = single_entry::Txn::new\([^;]*;)\s*(txn\s*\.effective_date\([^;]*;)", slice_count=1, slice_raw=True, slice_groups="all",
           rewrites=[("R1-path", "single_entry::Txn::new(", "Txn::new(", 1), ("R24-std-model", "transaction.refs.account_servicer_reference.as_deref()", "opt_string_as_deref(&transaction.refs.account_servicer_reference)", 1)],
           slice_template="""fn detail_txn(entry: &xmlnode::Entry, transaction: &xmlnode::TransactionDetails, fragment: &Fragment) -> (txn: Txn)
     ensures
